@@ -46,6 +46,7 @@ Type combinators
 Functions
     encode(T, v, b=None, ctx=None) -> Bld     append to a builder state (bits + refs); ModelError when it cannot be done
     to_cell(T, v) -> RCell                    a fresh cell holding exactly v
+    measure(T, v) -> (bits, refs)             size of v in the current cell, no capacity limit (for capacity arithmetic)
     decode(T, r, ctx=None) -> value           consume from a reader `Rd(cell)`; look at r.rest_bits / r.rest_refs / r.done()
     from_cell(T, cell, exact=True) -> value   decode a whole cell; DecodeError if something is left over
     generate(T, ch, budget=3, fit=True)       random value; `ch` is a chooser (HypChooser(draw) / HashChooser(label) /
@@ -94,22 +95,23 @@ class DecodeError(Exception):
 
 class Bld:
     """builder state: the bits and references of the cell under construction"""
-    __slots__ = ('parts', 'nbits', 'refs')
+    __slots__ = ('parts', 'nbits', 'refs', 'bounded')
 
-    def __init__(self):
+    def __init__(self, bounded=True):
         self.parts = []
         self.nbits = 0
         self.refs = []
+        self.bounded = bounded             # False: no 1023-bit / 4-ref limit (only for measuring sizes)
 
     def put(self, s):
-        if self.nbits + len(s) > 1023:
+        if self.bounded and self.nbits + len(s) > 1023:
             raise ModelError('bits-overflow', f'{self.nbits} + {len(s)} bits > 1023')
         self.parts.append(s)
         self.nbits += len(s)
         return self
 
     def ref(self, c):
-        if len(self.refs) >= 4:
+        if self.bounded and len(self.refs) >= 4:
             raise ModelError('refs-overflow', 'a fifth reference')
         self.refs.append(c)
         return self
@@ -121,7 +123,7 @@ class Bld:
         return 1023 - self.nbits, 4 - len(self.refs)
 
     def copy(self):
-        b = Bld()
+        b = Bld(self.bounded)
         b.parts = list(self.parts)
         b.nbits = self.nbits
         b.refs = list(self.refs)
@@ -1230,6 +1232,12 @@ def encode(t, v, b=None, ctx=None):
 
 def to_cell(t, v):
     return encode(t, v).cell()
+
+
+def measure(t, v):
+    """(bits, refs) that v occupies in the current cell, without the 1023-bit / 4-ref limit"""
+    b = encode(t, v, Bld(bounded=False))
+    return b.nbits, len(b.refs)
 
 
 def decode(t, r, ctx=None):
